@@ -18,6 +18,7 @@ import time
 import traceback
 from fractions import Fraction
 
+sys.set_int_max_str_digits(0)
 VERIF = os.path.dirname(os.path.dirname(os.path.abspath(__file__)))
 EVIDENCE_DIR = os.path.join(VERIF, 'evidence')
 REPLAY_DIR = os.path.join(VERIF, 'replays')
